@@ -115,6 +115,11 @@ Example C24_nonvacuous_separator :
 Proof. exact witness_sep. Qed.
 Print Assumptions C24_nonvacuous_separator.
 
+Example C24_nonvacuous_swapped :
+  peg_equiv_diffs [] [] g_wrapped g_plain = [] /\ peg_equiv_diffs [] [] g_other g_plain <> [].
+Proof. exact witness_swapped. Qed.
+Print Assumptions C24_nonvacuous_swapped.
+
 Example C24_nonvacuous_memo :
   PegProofs.ctx_constant g_sep1 = true /\ PegProofs.ctx_constant g_sep2 = true /\
   accepts (run g_sep1 cfg0 no_orc true 60 [91; 120; 44; 32; 120; 93]%N) = true /\
